@@ -14,8 +14,9 @@ Lemma run_iter_deltas : forall pts start last o, start - last == o ->
 Proof.
   induction pts as [|[d v] r IH]; intros start last o Ho; cbn [deltas run_iter map last_date fst snd].
   - split; [constructor|lra].
-  - destruct (run_iter (start + (d - last)) (deltas d r)) as [l e] eqn:E. cbn [fst snd].
-    specialize (IH (start + (d - last)) d o). rewrite E in IH. cbn [fst snd] in IH.
+  - pose proof (Qred_correct (start + (d - last))) as Hred.
+    destruct (run_iter (Qred (start + (d - last))) (deltas d r)) as [l e] eqn:E. cbn [fst snd].
+    specialize (IH (Qred (start + (d - last))) d o). rewrite E in IH. cbn [fst snd] in IH.
     destruct IH as [I1 I2]; [lra|]. split; [|exact I2].
     constructor; [|exact I1]. unfold evq, shift; cbn [fst snd]. split; [lra|reflexivity].
 Qed.
@@ -24,8 +25,9 @@ Lemma run_iter_start_proper : forall ds s1 s2, s1 == s2 ->
   Forall2 evq (fst (run_iter s1 ds)) (fst (run_iter s2 ds)) /\ snd (run_iter s1 ds) == snd (run_iter s2 ds).
 Proof.
   induction ds as [|[d v] r IH]; intros s1 s2 H; cbn [run_iter fst snd]; [split; [constructor|exact H]|].
-  destruct (run_iter (s1 + d) r) as [l1 e1] eqn:E1. destruct (run_iter (s2 + d) r) as [l2 e2] eqn:E2. cbn [fst snd].
-  specialize (IH (s1 + d) (s2 + d)). rewrite E1, E2 in IH. cbn [fst snd] in IH. destruct IH as [I1 I2]; [lra|].
+  pose proof (Qred_correct (s1 + d)) as R1. pose proof (Qred_correct (s2 + d)) as R2.
+  destruct (run_iter (Qred (s1 + d)) r) as [l1 e1] eqn:E1. destruct (run_iter (Qred (s2 + d)) r) as [l2 e2] eqn:E2. cbn [fst snd].
+  specialize (IH (Qred (s1 + d)) (Qred (s2 + d))). rewrite E1, E2 in IH. cbn [fst snd] in IH. destruct IH as [I1 I2]; [lra|].
   split; [|exact I2]. constructor; [|exact I1]. unfold evq; cbn [fst snd]. split; [lra|reflexivity].
 Qed.
 
@@ -44,8 +46,9 @@ Lemma run_iter_bump ld d v r start :
   snd (run_iter start (bump ld ((d, v) :: r))) == snd (run_iter (start + ld) ((d, v) :: r)).
 Proof.
   cbn [bump run_iter].
-  destruct (run_iter (start + (d + ld)) r) as [l1 e1] eqn:E1. destruct (run_iter (start + ld + d) r) as [l2 e2] eqn:E2.
-  cbn [fst snd]. pose proof (run_iter_start_proper r (start + (d + ld)) (start + ld + d)) as H.
+  pose proof (Qred_correct (start + (d + ld))) as R1. pose proof (Qred_correct (start + ld + d)) as R2.
+  destruct (run_iter (Qred (start + (d + ld))) r) as [l1 e1] eqn:E1. destruct (run_iter (Qred (start + ld + d)) r) as [l2 e2] eqn:E2.
+  cbn [fst snd]. pose proof (run_iter_start_proper r (Qred (start + (d + ld))) (Qred (start + ld + d))) as H.
   rewrite E1, E2 in H. cbn [fst snd] in H. destruct H as [H1 H2]; [lra|].
   split; [|exact H2]. constructor; [|exact H1]. unfold evq; cbn [fst snd]. split; [lra|reflexivity].
 Qed.
